@@ -22,6 +22,11 @@ MODES = ["TE", "TM", "m2", "m3"]
 def check_expand(ctx, rng, name, factory, params, force_sweep=False):
     L = impl.lk()
     modes = rng.sample(MODES, rng.randint(1, 4))
+    r = rng.random()
+    if r < 0.15:
+        modes = list(range(rng.randint(1, 3)))                 # modes numbered from zero
+    elif r < 0.25:
+        modes = rng.sample(["", "h", "TE"], rng.randint(2, 3))     # a label that is falsy but not None (the empty string)
     ns = 3 if force_sweep else rng.choice([1, 1, 3])
     kw = {}
     for nm, (lo, hi) in params.items():
@@ -71,6 +76,23 @@ def run_expand(ctx, name, factory, modes, kw, rep):
                     if not np.allclose(S[:, a, b], exp, atol=1e-12):
                         ctx.violation(f"C13:expand-wrong:{name}", f"coefficient ({p.name},{m})->({q.name},{m2}) is not the single-mode one / zero", rep)
                         return False
+    # pin names are basename_mode, and a pin is addressable by that string
+    for p, i in pd1.items():
+        for m in modes:
+            want = f"{p.name}_{m}"
+            pin = L.Pin(p.name, m)
+            if pin.name != want or want not in multi.pin or multi.pin[want] != pin:
+                ctx.violation(f"C13:expand-names:{name}", f"pin ({p.name}, mode {m!r}) of the expanded model is not addressable as {want!r} (its name is {pin.name!r})", rep)
+                return False
+    p0, q0 = next(iter(pd1)), list(pd1)[-1]
+    try:
+        z = multi.get_A(f"{p0.name}_{modes[0]}", f"{q0.name}_{modes[0]}")
+    except Exception as e:  # noqa
+        ctx.violation(f"C13:expand-names:{name}", f"get_A by the names {p0.name}_{modes[0]}, {q0.name}_{modes[0]} raised {type(e).__name__}", rep)
+        return False
+    if abs(z - S1[0, pd1[p0], pd1[q0]]) > 1e-12:
+        ctx.violation(f"C13:expand-names:{name}", f"get_A by name {p0.name}_{modes[0]} -> {q0.name}_{modes[0]} is not the single-mode coefficient", rep)
+        return False
     if len(pd) != len(pd1) * len(modes):
         ctx.violation(f"C13:expand-pins:{name}", "expanded model has extra or missing pins", rep)
         return False
